@@ -38,6 +38,7 @@ type Ev struct {
 	Drop  bool    `json:"drop"`
 	How   string  `json:"how"`
 	Fn    string  `json:"fn"`
+	Tree  []int   `json:"tree"` // identities of the Form nodes reachable from the process body, in the dump's preorder (ownership layer)
 }
 
 type pinfo struct {
@@ -68,7 +69,7 @@ type tracer struct {
 	env     *process.GlobalEnvironment
 	rng     *rand.Rand
 	yield   float64
-	control bool // gate-controlled (replay) mode
+	control bool      // gate-controlled (replay) mode
 	lastEv  time.Time // time of the last logged event (record mode: keeps the heartbeat alive while events keep coming)
 	cond    *sync.Cond
 	quiesce bool
@@ -77,6 +78,30 @@ type tracer struct {
 	tcEv    []string
 	maxEv   int
 	over    bool
+	nodes   map[process.Form]int // identity of every Form node ever seen in a process body (the map also pins the nodes: no address re-use)
+}
+
+// maxTree bounds the number of node identities logged per event (a preorder prefix of a larger body).
+const maxTree = 96
+
+// tree lists the identities of the numbered Form nodes of a body in the dump's preorder (branch records are not numbered).
+func (t *tracer) tree(p *process.Process) []int {
+	r := []int{}
+	for _, f := range process.VerifFormNodes(p.Body) {
+		if _, isBranch := f.(*process.BranchForm); isBranch {
+			continue
+		}
+		id, ok := t.nodes[f]
+		if !ok {
+			id = len(t.nodes) + 1
+			t.nodes[f] = id
+		}
+		r = append(r, id)
+		if len(r) >= maxTree {
+			break
+		}
+	}
+	return r
 }
 
 func setMaxEvents(t *tracer, n int) {
@@ -102,7 +127,7 @@ func goid() int64 {
 
 func newTracer(env *process.GlobalEnvironment, seed int64, yield float64, control bool) *tracer {
 	t := &tracer{gor: map[int64]*pinfo{}, procs: map[*process.Process]*pinfo{}, chans: map[chan process.Message][]int{},
-		ctls: map[chan process.ControlMessage][]int{}, env: env, rng: rand.New(rand.NewSource(seed)), yield: yield, control: control}
+		ctls: map[chan process.ControlMessage][]int{}, nodes: map[process.Form]int{}, env: env, rng: rand.New(rand.NewSource(seed)), yield: yield, control: control}
 	t.root = &pinfo{pid: []int{0}}
 	t.rootGo = goid()
 	t.cond = sync.NewCond(&t.mu)
@@ -154,6 +179,9 @@ func (t *tracer) emit(e Ev) {
 	}
 	if e.Names == nil {
 		e.Names = [][]int{}
+	}
+	if e.Tree == nil {
+		e.Tree = []int{}
 	}
 	if t.quiesce && e.E != "quiesce" {
 		t.late++
@@ -246,7 +274,7 @@ func (t *tracer) Spawn(child *process.Process) {
 	}
 	t.procs[child] = pi
 	t.order = append(t.order, pi)
-	e := Ev{E: "spawn", P: cp(a.pid), Child: cp(pi.pid), Provs: t.provs(child)}
+	e := Ev{E: "spawn", P: cp(a.pid), Child: cp(pi.pid), Provs: t.provs(child), Tree: t.tree(child)}
 	t.head(&e, child)
 	t.emit(e)
 	t.cond.Broadcast()
@@ -261,7 +289,7 @@ func (t *tracer) Gate(p *process.Process, re *process.RuntimeEnvironment) {
 		return
 	}
 	t.gor[goid()] = pi
-	e := Ev{E: "at", P: cp(pi.pid), Provs: t.provs(p)}
+	e := Ev{E: "at", P: cp(pi.pid), Provs: t.provs(p), Tree: t.tree(p)}
 	t.head(&e, p)
 	t.emit(e)
 	pi.last, pi.lastK, pi.sending = "at", e.Kind, false
@@ -509,7 +537,7 @@ func (t *tracer) collect() ([]Ev, int) {
 }
 
 // execTraced runs the program with the tracer installed; with a schedule it drives the gate.
-func execTraced(t *tracer, re *process.RuntimeEnvironment, procs []*process.Process, sched [][]int) (int, string) {
+func execTraced(t *tracer, re *process.RuntimeEnvironment, procs []*process.Process, sched [][]int, sub *process.SubscriberInfo) (int, string) {
 	if len(sched) == 0 {
 		install(t)
 		// The interpreter declares quiescence after 50 ms without a heartbeat, which a loaded machine can exceed in the middle
@@ -536,7 +564,7 @@ func execTraced(t *tracer, re *process.RuntimeEnvironment, procs []*process.Proc
 				time.Sleep(4 * time.Millisecond)
 			}
 		}()
-		process.InitializeProcesses(procs, nil, nil, re)
+		process.InitializeProcesses(procs, nil, sub, re)
 		close(stop)
 		return -1, ""
 	}
@@ -548,7 +576,7 @@ func execTraced(t *tracer, re *process.RuntimeEnvironment, procs []*process.Proc
 		t.mu.Unlock()
 		install(t)
 		close(started)
-		process.InitializeProcesses(procs, nil, nil, re)
+		process.InitializeProcesses(procs, nil, sub, re)
 		close(done)
 	}()
 	<-started
